@@ -76,6 +76,9 @@ func brv8(k int) int {
 	return r
 }
 
+// optRegister is set by opt.go (compiled unless -tags noopt): registers the vector-level domains.
+var optRegister func(qd func(name, desc, tier string, size, chunk int64, run func(c *drv.Ctx, lo, hi int64)))
+
 func main() {
 	ck := &drv.Check{Property: "C12", Level: "model_checking",
 		Rule: "full operand-domain enumeration against int64 definitions: every residue for power2round/decompose/use-hint, every (a0,a1) of the hint domain, every int32 for reduce32/caddq, " +
@@ -513,170 +516,13 @@ func main() {
 			c.Outcome("ok")
 		}
 	})
-	// vector level: every polyvec helper must be the coefficient-wise lifting of its scalar function over ALL K (resp. L)
-	// polynomials and all 256 positions (a loop bound, a neighbour index or a copy-instead-of-reference slip lives here)
-	vecOps := []string{"Lreduce", "Kreduce", "Kcaddq", "Ladd", "Kadd", "Ksub", "KshiftL", "Kp2r", "Kdecompose", "Kmakehint", "Kusehint", "Lpwpoly", "Kpwpoly", "Lacc", "Lntt", "Kntt", "Linvntt", "Kinvntt"}
-	qd("vector-lifting", "18 polyvec helpers on 64 marker inputs each (distinct value per polynomial index and position, extreme in-domain values): result == the scalar function applied to every coefficient of every polynomial", "", int64(len(vecOps))*64, 8, func(c *drv.Ctx, lo, hi int64) {
-		for idx := lo; idx < hi; idx++ {
-			c.At(idx)
-			op := vecOps[idx/64]
-			variant := int(idx % 64)
-			n := 8
-			if op[0] == 'L' {
-				n = 7
-			}
-			a := make([][256]int32, n)
-			b := make([][256]int32, n)
-			var cp [256]int32
-			val := func(i, p, salt int) int64 {
-				return int64((i*2654435+p*40503+salt*7919+variant*104729)%(2*Q-1)) - (Q - 1)
-			}
-			for i := 0; i < n; i++ {
-				for p := 0; p < 256; p++ {
-					va, vb := val(i, p, 1), val(i, p, 2)
-					switch op {
-					case "Lreduce", "Kreduce": // any int32 up to 2^31-2^22-1
-						va = va * 250
-					case "Kcaddq":
-						// (-q, q)
-					case "KshiftL":
-						va = mod(va) % 1024
-					case "Kp2r", "Kdecompose", "Kusehint":
-						va = mod(va)
-						vb = vb & 1
-					case "Kmakehint":
-						va = va % (2*GAMMA2 - BETA - 1) // a0
-						if (p+variant)%9 == 0 {
-							va = -GAMMA2
-						}
-						if (p+variant)%11 == 0 {
-							va = GAMMA2
-						}
-						vb = mod(vb) % 16
-						if (p+i+variant)%3 == 0 {
-							vb = 0
-						}
-					}
-					a[i][p], b[i][p] = int32(va), int32(vb)
-				}
-			}
-			for p := 0; p < 256; p++ {
-				cp[p] = int32(val(99, p, 3))
-			}
-			fail := func(i, p int, exp, got int64) {
-				c.Fail(idx, "vector-helper-is-not-the-lifting-of-its-scalar-function:"+op, map[string]any{"op": op, "polynomial": i, "position": p, "expected": exp, "observed": got, "variant": variant})
-			}
-			out, out2, ret := dilithium.VerifVecOp(op, a, b, &cp, 0)
-			c.Eval(1)
-			c.Nontrivial(1)
-			ok := true
-			for i := 0; i < n && ok; i++ {
-				for p := 0; p < 256 && ok; p++ {
-					var exp, exp2 int64
-					var got, got2 int64
-					if op != "Lacc" {
-						got = int64(out[i][p])
-					}
-					switch op {
-					case "Lreduce", "Kreduce":
-						exp = int64(dilithium.VerifReduce32(a[i][p]))
-					case "Kcaddq":
-						exp = int64(dilithium.VerifCAddQ(a[i][p]))
-					case "Ladd", "Kadd":
-						exp = int64(a[i][p]) + int64(b[i][p])
-					case "Ksub":
-						exp = int64(a[i][p]) - int64(b[i][p])
-					case "KshiftL":
-						exp = int64(a[i][p]) << D
-					case "Kp2r":
-						e1, e0 := dilithium.VerifPower2Round(a[i][p])
-						exp, exp2, got2 = int64(e1), int64(e0), int64(out2[i][p])
-					case "Kdecompose":
-						e1, e0 := dilithium.VerifDecompose(a[i][p])
-						exp, exp2, got2 = int64(e1), int64(e0), int64(out2[i][p])
-					case "Kmakehint":
-						exp = int64(dilithium.VerifMakeHint(a[i][p], b[i][p]))
-					case "Kusehint":
-						exp = int64(dilithium.VerifUseHint(a[i][p], int(b[i][p])))
-					case "Lpwpoly", "Kpwpoly":
-						exp = int64(dilithium.VerifMontgomeryReduce(int64(cp[p]) * int64(a[i][p])))
-					case "Lntt", "Kntt":
-						x := a[i]
-						dilithium.VerifNTT(&x)
-						exp = int64(x[p])
-					case "Linvntt", "Kinvntt":
-						x := a[i]
-						dilithium.VerifInvNTTToMont(&x)
-						exp = int64(x[p])
-					case "Lacc":
-						if i > 0 {
-							continue
-						}
-						for j := 0; j < n; j++ {
-							exp += int64(dilithium.VerifMontgomeryReduce(int64(a[j][p]) * int64(b[j][p])))
-						}
-						got = int64(out[0][p])
-					}
-					congr := map[string]bool{"Lpwpoly": true, "Kpwpoly": true, "Lntt": true, "Kntt": true, "Linvntt": true, "Kinvntt": true, "Lacc": true}
-					if congr[op] {
-						// for products and transforms the property is equality modulo q (the representative is an implementation choice)
-						if mod(got) != mod(exp) {
-							fail(i, p, exp, got)
-							ok = false
-						}
-					} else if got != exp || got2 != exp2 {
-						fail(i, p, exp, got)
-						ok = false
-					}
-				}
-			}
-			if op == "Kmakehint" && ok {
-				cnt := 0
-				for i := range out {
-					for p := range out[i] {
-						cnt += int(out[i][p])
-					}
-				}
-				if cnt != ret {
-					c.Fail(idx, "vector-makehint-count", map[string]any{"expected": cnt, "observed": ret})
-				}
-			}
-			c.Outcome("ok")
-			if idx == 0 {
-				c.Sample(map[string]any{"op": op, "variant": variant})
-			}
-		}
-	})
-	qd("vector-chknorm", "polyVecL/KChkNorm: a single coefficient at the bound (B, B-1, -B, -(B-1)) placed in EACH polynomial x 5 positions x 5 bounds, all others zero: result == [that coefficient >= B]", "", (8+7)*5*5*4, 100, func(c *drv.Ctx, lo, hi int64) {
-		for idx := lo; idx < hi; idx++ {
-			c.At(idx)
-			k := idx
-			vi := int(k % 4)
-			k /= 4
-			B := []int32{1, GAMMA1 - BETA, GAMMA2 - BETA, GAMMA2, (Q - 1) / 8}[k%5]
-			k /= 5
-			pos := []int{0, 1, 127, 254, 255}[k%5]
-			k /= 5
-			poly := int(k)
-			op, n := "Kchknorm", 8
-			if poly >= 8 {
-				op, n, poly = "Lchknorm", 7, poly-8
-			}
-			v := []int32{B, B - 1, -B, -(B - 1)}[vi]
-			a := make([][256]int32, n)
-			a[poly][pos] = v
-			_, _, ret := dilithium.VerifVecOp(op, a, nil, nil, B)
-			exp := 0
-			if v >= B || -v >= B {
-				exp = 1
-			}
-			c.Eval(1)
-			c.Nontrivial(1)
-			c.Outcome(fmt.Sprint(ret))
-			if ret != exp {
-				c.Fail(idx, "vector-chknorm:"+op, map[string]any{"polynomial": poly, "position": pos, "value": v, "B": B, "expected": exp, "observed": ret})
-			}
-		}
-	})
+	if optRegister != nil {
+		optRegister(qd)
+	} else {
+		qd("optional-domains-skipped", "", "", 1, 1, func(c *drv.Ctx, lo, hi int64) {
+			c.Cap("the vector-level hook does not fit this tree: domains vector-lifting / vector-chknorm skipped")
+			c.Outcome("skipped")
+		})
+	}
 	drv.Main(ck)
 }
